@@ -58,6 +58,18 @@ def gen_plan(rng, tier):
     p['knobs'] = {'orphaned_threshold': 2, 'max_in_flight': 64}
     p.update(strategy=gen_strategy(rng), line_p=rng.choice([0, 0, 0.01]), points=rng.choice([0, 2]), time_jump_p=0)
     p.update(gen_stalls(rng, ['_set_keyspace_for_all_pools', '_set_keyspace_for_all_conns', '_replace', 'set_keyspace_async'], 0.25))
+    if rng.random() < 0.12:
+        # a connection replacement (orphaned-stream threshold reached around the first switch) whose thread is descheduled line by
+        # line while the second switch is applied to the connection being replaced
+        while len(p['switches']) < 2:
+            p['switches'].append(dict(p['switches'][0], ks='ks3', orphan_node=None))
+        on = rng.randrange(0, n)
+        p['switches'][0].update(orphan_node=on, reject={}, rst_before=None)
+        p['switches'][1].update(orphan_node=None, reject={}, rst_before=None, slow=dict((str(i), rng.choice([5, 20]) if i != on else 1) for i in range(n)))
+        p['remote_nodes'] = [i for i in p['remote_nodes'] if i != on]
+        p['focus_stall'] = ['_replace', rng.choice([0.3, 0.4, 0.6]), rng.choice([0.1, 0.2])]
+        p.pop('stall', None)
+        return p
     if rng.random() < 0.2:
         # protocol 2: HostConnectionPool, several connections per pool, each of which has to switch
         make_legacy(p, rng)
